@@ -2,6 +2,8 @@ package main
 
 import (
 	"fmt"
+
+	"golang.org/x/tools/go/ssa"
 	"os"
 	"sort"
 	"strings"
@@ -22,6 +24,9 @@ func debugPaths(repo, pat string) {
 			continue
 		}
 		x := absint.New(p.SSA, p.InScope)
+		if os.Getenv("HRNOINLINE") != "" {
+			x.Hooks.Inline = func(*ssa.Function, int) bool { return false }
+		}
 		if os.Getenv("HRTRACK") == "none" {
 			x.Track = func(string) bool { return false }
 		}
